@@ -169,6 +169,39 @@ pub struct Net<'a> {
     pub joinfree: bool,
     /// every run so far returned code 0 or 30000
     pub clean: bool,
+    /// every n-th run is re-executed in a fresh process (0 = never)
+    pub fresh_every: u64,
+}
+
+pub fn hex(b: &[u8]) -> String {
+    b.iter().map(|x| format!("{:02x}", x)).collect()
+}
+
+pub fn unhex(s: &str) -> Vec<u8> {
+    (0..s.len() / 2).map(|i| u8::from_str_radix(&s[2 * i..2 * i + 2], 16).unwrap_or(0)).collect()
+}
+
+/// `aqua-harness one <file>`: execute one recorded run (in this fresh process) and print its canonical outcome
+pub fn cmd_one(path: &str) -> i32 {
+    let peers = Peers::new();
+    let j: J = match std::fs::read_to_string(path).ok().and_then(|s| serde_json::from_str(&s).ok()) {
+        Some(j) => j,
+        None => return 2,
+    };
+    let mut results = CallResults::new();
+    for r in j["results"].as_array().cloned().unwrap_or_default() {
+        results.insert(r["id"].as_str().unwrap_or("").to_string(), CallServiceResult { ret_code: r["rc"].as_i64().unwrap_or(0) as i32, result: r["body"].as_str().unwrap_or("").to_string() });
+    }
+    let o = run_raw(&peers, j["script"].as_str().unwrap_or(""), &unhex(j["prev"].as_str().unwrap_or("")), &unhex(j["cur"].as_str().unwrap_or("")),
+        j["init"].as_str().unwrap_or("A"), j["me"].as_str().unwrap_or("A"), j["particle"].as_str().unwrap_or(""), &Limits::default(), &results);
+    let pr = proj::project(&o.data, &peers, j["particle"].as_str().unwrap_or(""), &ArgHashes::new());
+    let reqs = decode_requests(&o.reqs_bytes, &peers).unwrap_or_default();
+    let mut nx: Vec<String> = o.next.iter().map(|p| peers.name_of(p)).collect();
+    nx.sort();
+    nx.dedup();
+    println!("{}", json!({"code": o.code, "msgd": proj::digest_of(&J::String(o.msg.clone())), "digest": pr.digest,
+        "reqsd": proj::digest_of(&reqs_json(&reqs, &peers)), "next": nx, "died": o.died.is_some()}));
+    0
 }
 
 pub fn version_tuple(v: &str) -> J {
@@ -229,6 +262,7 @@ impl<'a> Net<'a> {
             nruns: 0,
             joinfree: false,
             clean: true,
+            fresh_every: 0,
         }
     }
 
@@ -247,6 +281,26 @@ impl<'a> Net<'a> {
                 let tagged: Vec<J> = r.args.iter().map(|a| proj::tag(a, self.peers)).collect();
                 self.ah.map.insert(c.get_inner().to_string(), J::Array(tagged));
             }
+        }
+    }
+
+    fn rerun_in_fresh_process(&self, me: &str, prev: &[u8], cur: &[u8], results: &CallResults) -> J {
+        let res: Vec<J> = results.iter().map(|(k, v)| json!({"id": k, "rc": v.ret_code, "body": v.result})).collect();
+        let input = json!({"script": self.script, "prev": hex(prev), "cur": hex(cur), "init": self.init, "me": me,
+                           "particle": self.particle, "results": res});
+        let path = std::env::temp_dir().join(format!("aqua-harness-one-{}-{}.json", std::process::id(), self.nruns));
+        if std::fs::write(&path, input.to_string()).is_err() {
+            return json!({"done": false});
+        }
+        let exe = std::env::current_exe().unwrap_or_default();
+        let out = std::process::Command::new(exe).arg("one").arg(&path).output();
+        let _ = std::fs::remove_file(&path);
+        match out.ok().and_then(|o| serde_json::from_slice::<J>(&o.stdout).ok()) {
+            Some(mut j) => {
+                j["done"] = json!(true);
+                j
+            }
+            None => json!({"done": false}),
         }
     }
 
@@ -316,7 +370,7 @@ impl<'a> Net<'a> {
         let eqprev = o.data == prev;
 
         // ---- probes (leave the simulated state unchanged)
-        let mut probes = json!({"idem": [], "rerun": {"done": false}, "fresh": {"done": false}, "recode": {"done": false}});
+        let mut probes = json!({"idem": [], "rerun": {"done": false}, "rerun_fresh": {"done": false}, "fresh": {"done": false}, "recode": {"done": false}});
         if self.probes && o.died.is_none() && o.code != -1 {
             let none = CallResults::new();
             let mut idem = vec![];
@@ -337,6 +391,10 @@ impl<'a> Net<'a> {
             qn.dedup();
             probes["rerun"] = json!({"done": true, "code": q.code, "msg_eq": q.msg == o.msg, "digest": qp.digest,
                 "reqs_eq": reqs_json(&qreqs, self.peers) == reqs_json(&reqs, self.peers), "next": qn, "flags": q.flags});
+            // determinism across processes: the same inputs re-executed in a fresh process (a sample of the runs)
+            if self.fresh_every > 0 && self.nruns % self.fresh_every == 0 {
+                probes["rerun_fresh"] = self.rerun_in_fresh_process(me, &prev, &cur_bytes, &results);
+            }
             // acceptance by a fresh peer as *current* data
             if !o.data.is_empty() {
                 let q = run_raw(self.peers, &self.script, &[], &o.data, &self.init, "V", &self.particle, &Limits::default(), &none);
@@ -388,7 +446,7 @@ impl<'a> Net<'a> {
                 "eqprev": eqprev, "decodes": pr.decodes, "empty": pr.empty, "ver": version_tuple(&pr.version),
                 "data": pr.data, "digest": pr.digest, "td": pr.tdigest,
                 "next": next_names, "next_dup": next_dup,
-                "reqs": reqs_json(&reqs, self.peers), "reqs_ok": reqs_ok,
+                "reqs": reqs_json(&reqs, self.peers), "reqs_ok": reqs_ok, "reqsd": proj::digest_of(&reqs_json(&reqs, self.peers)),
                 "flags": o.flags,
                 "store_ok": pr.store_ok, "store_ok_repo": pr.store_ok_repo, "refs_ok": pr.refs_ok, "dangling": pr.dangling,
                 "sig": sig, "newver": new_ver
